@@ -16,6 +16,7 @@ func init() {
 	acts["encode_chain"] = actEncodeChain
 	acts["decode"] = actDecode
 	acts["decode_chain"] = actDecodeChain
+	acts["decode_used"] = actDecodeUsed
 	acts["decode_body"] = actDecodeBody
 	acts["parse_header"] = actParseHeader
 	acts["reencode"] = actReencode
@@ -243,6 +244,36 @@ func actDecode(e *Env, a J) J {
 		}
 		return o
 	})
+}
+
+// actDecodeUsed: a message object (and a payload container) that already received one datagram receives another one; whatever the
+// library does with what the object held (append, replace), it does the same whether or not the second datagram carries a
+// payload that is skipped: the outcome with `wire` equals the outcome with `plain` (the same datagram without that payload)
+func actDecodeUsed(e *Env, a J) J {
+	first, w, plain := []byte(gox(a, "first")), []byte(gox(a, "wire")), []byte(gox(a, "plain"))
+	run := func(second []byte) (string, string) {
+		m := new(message.IKEMessage)
+		_ = m.Decode(append([]byte{}, first...))
+		err := m.Decode(append([]byte{}, second...))
+		var c message.IKEPayloadContainer
+		if len(first) >= 28 {
+			_ = c.Decode(first[16], append([]byte{}, first[28:]...))
+		}
+		var err2 error
+		if len(second) >= 28 {
+			err2 = c.Decode(second[16], append([]byte{}, second[28:]...))
+		}
+		return digest(J{"err": err != nil, "payloads": projChain(m.Payloads)}), digest(J{"err": err2 != nil, "payloads": projChain(c)})
+	}
+	m1, c1 := run(w)
+	m2, c2 := run(plain)
+	o := J{"usedsame": m1 == m2 && c1 == c2}
+	if m1 != m2 {
+		o["useddiff"] = "message: " + m1 + " / " + m2
+	} else if c1 != c2 {
+		o["useddiff"] = "container: " + c1 + " / " + c2
+	}
+	return o
 }
 
 func actDecodeChain(e *Env, a J) J {
